@@ -25,7 +25,7 @@ from typing import (
 
 import kiwipy
 
-from . import lang, mixins, persistence, process_states, processes
+from . import futures, lang, mixins, persistence, process_states, processes
 from .utils import PID_TYPE, SAVED_STATE_TYPE
 
 __all__ = ['ToContext', 'WorkChain', 'WorkChainSpec', 'if_', 'return_', 'while_']
@@ -112,7 +112,11 @@ class Waiting(process_states.Waiting):
         key = self._awaiting.pop(awaitable)
         try:
             self.process.ctx[key] = awaitable.result()  # type: ignore
-        except Exception as exception:
+        except (Exception, asyncio.CancelledError) as exception:
+            if isinstance(exception, asyncio.CancelledError):
+                # The awaitable was cancelled, e.g. a child process that was killed by cancelling its future. This counts
+                # as a failure, but raised as it is inside the stepping task it would cancel that task instead
+                exception = futures.CancelledError(f"the awaitable '{key}' was cancelled")
             if self._failure is None:
                 self._failure = exception
             if not self._waiting_future.done():
